@@ -577,8 +577,10 @@ func (g *Gen) bindResults(env *TEnv, sig *types.Signature, get func(i int) strin
 
 func isIgnoredCall(callee *ssa.Function, cc *ssa.CallCommon) bool {
 	if callee == nil {
-		if cc != nil && cc.IsInvoke() {
-			return false
+		if cc != nil && !cc.IsInvoke() {
+			// a function VALUE that can only be one of several ignored functions
+			// (`trace := log.Debugf; if verbose { trace = log.Infof }; trace(...)`)
+			return onlyIgnoredFuncs(cc.Value, map[ssa.Value]bool{})
 		}
 		return false
 	}
@@ -594,6 +596,25 @@ func isIgnoredCall(callee *ssa.Function, cc *ssa.CallCommon) bool {
 		return true
 	case strings.HasPrefix(k, "(*github.com/ontio/ontology-eventbus/"):
 		return false
+	}
+	return false
+}
+
+func onlyIgnoredFuncs(v ssa.Value, seen map[ssa.Value]bool) bool {
+	if seen[v] {
+		return true
+	}
+	seen[v] = true
+	switch x := v.(type) {
+	case *ssa.Function:
+		return x.Parent() == nil && isIgnoredCall(x, nil)
+	case *ssa.Phi:
+		for _, e := range x.Edges {
+			if !onlyIgnoredFuncs(e, seen) {
+				return false
+			}
+		}
+		return len(x.Edges) > 0
 	}
 	return false
 }
